@@ -390,6 +390,67 @@ func errorHandled(f *ssa.Function, e ssa.Value) (bool, string) {
 			}
 		}
 	}
+	// polarity: when the error is branched on, what hands it on (a return, a call that reports it, a store) must sit
+	// on the side where it is non-nil; if every such use sits on the side where it is nil, a failure is swallowed
+	if rs := e.Referrers(); rs != nil {
+		for _, ref := range *rs {
+			bo, ok := ref.(*ssa.BinOp)
+			if !ok || (bo.Op != token.NEQ && bo.Op != token.EQL) || bo.Referrers() == nil {
+				continue
+			}
+			if c, isC := bo.Y.(*ssa.Const); !isC || !c.IsNil() {
+				if c2, isC2 := bo.X.(*ssa.Const); !isC2 || !c2.IsNil() {
+					continue
+				}
+			}
+			for _, r2 := range *bo.Referrers() {
+				ifi, isIf := r2.(*ssa.If)
+				if !isIf {
+					continue
+				}
+				nonNil, isNil := ifi.Block().Succs[0], ifi.Block().Succs[1]
+				if bo.Op == token.EQL {
+					nonNil, isNil = isNil, nonNil
+				}
+				if len(isNil.Preds) != 1 {
+					continue
+				}
+				// blocks reachable from the non-nil side
+				reach := map[*ssa.BasicBlock]bool{}
+				stack := []*ssa.BasicBlock{nonNil}
+				for len(stack) > 0 {
+					b := stack[len(stack)-1]
+					stack = stack[:len(stack)-1]
+					if reach[b] {
+						continue
+					}
+					reach[b] = true
+					stack = append(stack, b.Succs...)
+				}
+				onNonNil, onNil := 0, 0
+				for v := range seen {
+					urs := v.Referrers()
+					if urs == nil {
+						continue
+					}
+					for _, u := range *urs {
+						switch u.(type) {
+						case *ssa.Return, *ssa.Call, *ssa.Store:
+							switch {
+							case isNil.Dominates(u.Block()):
+								onNil++
+							case reach[u.Block()]:
+								onNonNil++
+							}
+						}
+					}
+				}
+				if onNil > 0 && onNonNil == 0 {
+					return false, "handed on only on the branch where it is nil: when the call fails, control goes on as if it had succeeded and the failure is swallowed"
+				}
+			}
+		}
+	}
 	switch {
 	case returned && (tested || true):
 		if tested {
@@ -868,6 +929,7 @@ func ErrorConstructors(p *load.Prog, r *oblig.Report, rule string, funcs []*ssa.
 	for _, f := range funcs {
 		inSet[f] = true
 	}
+	raised := map[string]int{}
 	allowed := map[string]bool{}
 	for _, c := range constructors {
 		allowed[c] = true
@@ -922,6 +984,7 @@ func ErrorConstructors(p *load.Prog, r *oblig.Report, rule string, funcs []*ssa.
 				case pk != nil && load.ShortPkg(pk) == "errors" && !allowed[callee.Name()]:
 					r.Bad(rule, construct, p.Pos(x.Pos()), "the printer fails with "+callee.Name()+", which is not one of the documented kinds of failure ("+strings.Join(constructors, ", ")+")")
 				case pk != nil && load.ShortPkg(pk) == "errors" && allowed[callee.Name()]:
+					raised[callee.Name()]++
 					r.OK(rule, construct, p.Pos(x.Pos()), "documented-constructor", callee.Name())
 				case pk != nil && !load.IsRepoPkg(pk) && strings.Contains(callee.Name(), "nmarshal"):
 					r.OK(rule, construct, p.Pos(x.Pos()), "decoder-error", load.FuncName(callee))
@@ -943,6 +1006,13 @@ func ErrorConstructors(p *load.Prog, r *oblig.Report, rule string, funcs []*ssa.
 	}
 	if n == 0 {
 		r.Unknown(rule, "error-origin:none", "-", "no error origin found: anchors no longer resolve")
+	}
+	// every documented kind of failure is still raised somewhere: a model the DSL cannot express (or that contradicts
+	// itself) must be turned down, not printed as something else
+	for _, c := range constructors {
+		if raised[c] == 0 {
+			r.Bad(rule, "error-raised:"+c, "-", "the documented failure "+c+" is never raised by the printer any more: the inputs it stood for are now printed as if they were expressible")
+		}
 	}
 }
 
@@ -1075,4 +1145,90 @@ func bodyReports(fn *ssa.Function, depth int) bool {
 		}
 	}
 	return false
+}
+
+// IndexLoopsCoverList: an index loop over a list — for i := C; i < len(xs); i++ — in the given functions visits every
+// element: it starts at 0 and runs while i < len(xs) (a loop that starts at 1 or stops one short silently leaves an
+// element out of whatever the loop decides or renders). Judged: loops whose condition compares the loop variable with
+// len(...) and whose step is i++; anything else is not an index loop over a list and is left alone.
+func IndexLoopsCoverList(p *load.Prog, r *oblig.Report, rule string, funcs []*ssa.Function) {
+	n, bad := 0, 0
+	seen := map[*ast.FuncDecl]bool{}
+	for _, f := range funcs {
+		fd, ok := f.Syntax().(*ast.FuncDecl)
+		if !ok || seen[fd] || f.Pkg == nil || !load.IsRepoPkg(f.Pkg.Pkg) || load.ShortPkg(f.Pkg.Pkg) == "gen" {
+			continue
+		}
+		seen[fd] = true
+		pk := p.Pkgs[load.ShortPkg(f.Pkg.Pkg)]
+		if pk == nil {
+			continue
+		}
+		ast.Inspect(fd.Body, func(nd ast.Node) bool {
+			fs, ok := nd.(*ast.ForStmt)
+			if !ok || fs.Init == nil || fs.Cond == nil || fs.Post == nil {
+				return true
+			}
+			as, ok := fs.Init.(*ast.AssignStmt)
+			if !ok || len(as.Lhs) != 1 || len(as.Rhs) != 1 {
+				return true
+			}
+			iv, ok := as.Lhs[0].(*ast.Ident)
+			if !ok {
+				return true
+			}
+			inc, ok := fs.Post.(*ast.IncDecStmt)
+			if !ok || inc.Tok != token.INC {
+				return true
+			}
+			if id, ok := inc.X.(*ast.Ident); !ok || id.Name != iv.Name {
+				return true
+			}
+			cond, ok := fs.Cond.(*ast.BinaryExpr)
+			if !ok {
+				return true
+			}
+			lhs, ok := cond.X.(*ast.Ident)
+			if !ok || lhs.Name != iv.Name {
+				return true
+			}
+			// the bound mentions len(...)
+			mentionsLen := false
+			ast.Inspect(cond.Y, func(m ast.Node) bool {
+				if call, ok := m.(*ast.CallExpr); ok {
+					if id, ok := call.Fun.(*ast.Ident); ok && id.Name == "len" {
+						mentionsLen = true
+					}
+				}
+				return true
+			})
+			if !mentionsLen {
+				return true
+			}
+			n++
+			construct := "index-loop:" + load.FuncName(f) + ":" + types.ExprString(cond.Y)
+			start, startKnown := int64(-1), false
+			if tv, ok := pk.TypesInfo.Types[as.Rhs[0]]; ok && tv.Value != nil {
+				if v, exact := constant.Int64Val(tv.Value); exact {
+					start, startKnown = v, true
+				}
+			}
+			_, boundIsLen := cond.Y.(*ast.CallExpr)
+			switch {
+			case !startKnown || start != 0:
+				bad++
+				r.Bad(rule, construct, p.Pos(fs.Pos()), "the index loop starts at "+types.ExprString(as.Rhs[0])+", not at 0: the first element(s) of the list are left out of what the loop decides or renders")
+			case cond.Op != token.LSS || !boundIsLen:
+				bad++
+				r.Bad(rule, construct, p.Pos(fs.Pos()), "the index loop runs while "+types.ExprString(fs.Cond)+", not while "+iv.Name+" < len(list): it stops short of the last element or runs past it")
+			default:
+				r.OK(rule, construct, p.Pos(fs.Pos()), "0..len", "")
+			}
+			return true
+		})
+	}
+	if n == 0 {
+		r.OK(rule, "index-loop", "-", "none", "no index loop over a list in the functions judged")
+	}
+	_ = bad
 }
